@@ -5,6 +5,17 @@ import sys
 
 
 def main():
+    if len(sys.argv) >= 3 and sys.argv[1] == "replay":
+        import json
+        from .framework import native_replay
+        rec = json.load(open(sys.argv[2]))
+        kind = rec.get("replay_kind")
+        print(json.dumps(rec.get("native"), indent=1))
+        if kind:
+            out = native_replay(rec["property"], kind, {"obligation": rec["obligation"], "model": rec.get("model")})
+            print(json.dumps(out, indent=1))
+            return 1 if out.get("confirmed") else 0
+        return 0
     if len(sys.argv) < 3 or sys.argv[1] != "check":
         print("usage: python3-vt -m a5verif check <property id> [--tier quick|thorough] [--seed N]")
         return 3
